@@ -1088,4 +1088,81 @@ theorem insert_fresh (cv : Conv) (b : List (Uuid × Data)) : ∀ (p : Points) (c
           · rw [if_pos he] at k2; cases k2
           · rw [if_neg he] at k2; exact k2
 
+/-! ### the id bound need only be checked at the end: the id counter never goes back -/
+
+theorem insertLoop_next_le (b : List (Uuid × Data)) : ∀ (p : Points) (c : Ctr) (p' : Points) (c' : Ctr),
+    C01.insertLoop p c b = .ok (p', c') → c.next ≤ c'.next := by
+  induction b with
+  | nil =>
+    intro p c p' c' h
+    simp only [C01.insertLoop, Except.ok.injEq, Prod.mk.injEq] at h
+    obtain ⟨_, rfl⟩ := h
+    exact Nat.le_refl _
+  | cons e rest ih =>
+    obtain ⟨u, d⟩ := e
+    intro p c p' c' h
+    by_cases hex : (C01.AL.get p.pI u).isSome = true
+    · simp [C01.insertLoop, hex] at h
+    · simp only [C01.insertLoop, hex, Bool.false_eq_true, if_false] at h
+      exact Nat.le_trans (nextId_next_le c) (ih _ _ p' c' h)
+
+theorem deleteLoop_next (iter : List Uuid) : ∀ (p : Points) (c : Ctr) (acc : List Uuid),
+    (C01.deleteLoop p c iter acc).2.1.next = c.next := by
+  induction iter with
+  | nil => intro p c acc; rfl
+  | cons u rest ih =>
+    intro p c acc
+    cases hu : C01.AL.get p.pI u with
+    | none => simp only [C01.deleteLoop, hu]; exact ih p c acc
+    | some id => simp only [C01.deleteLoop, hu]; rw [ih]; rfl
+
+theorem shard_step_next_le (cfg : C01.Cfg) (s : Shard) (op : C01.Op) (o : C01.Oracle) :
+    s.nextV ≤ (s.step cfg op o).1.nextV := by
+  cases op with
+  | insert b =>
+    simp only [C01.Shard.step]
+    rcases insertPoints_cases s b o with ⟨h1, _⟩ | ⟨p, c, hl, _, heq⟩
+    · rw [h1]; exact Nat.le_refl _
+    · rw [heq]; exact insertLoop_next_le b _ _ p c hl
+  | update b =>
+    simp only [C01.Shard.step]
+    rcases updatePoints_cases cfg s b o with ⟨h1, _⟩ | ⟨p, ids, _, _, heq⟩
+    · rw [h1]; exact Nat.le_refl _
+    · rw [heq]; exact Nat.le_refl _
+  | delete ids =>
+    simp only [C01.Shard.step]
+    rcases deletePoints_cases s ids o with ⟨h1, _⟩ | ⟨_, heq⟩
+    · rw [h1]; exact Nat.le_refl _
+    · rw [heq]
+      show s.nextV ≤ (C01.deleteLoop s.pts (C01.newIdCounter s o) _ []).2.1.next
+      rw [deleteLoop_next]; exact Nat.le_refl _
+
+theorem run_next_le (lower : Bytes → Bytes) (cv : Conv) (cfg : C01.Cfg) (h : List (C01.Op × C01.Oracle)) : ∀ (st : State),
+    st.shard.nextV ≤ (State.run lower cv cfg st h).1.shard.nextV := by
+  induction h with
+  | nil => intro st; exact Nat.le_refl _
+  | cons e rest ih =>
+    obtain ⟨op, o⟩ := e
+    intro st
+    simp only [State.run]
+    refine Nat.le_trans ?_ (ih _)
+    rw [(step_shard lower cv cfg st op o).1]
+    exact shard_step_next_le cfg st.shard op _
+
+/-- the NaN half of `HistOK` alone -/
+def HistFlt (lower : Bytes → Bytes) (cv : Conv) (cfg : C01.Cfg) : State → List (C01.Op × C01.Oracle) → Prop
+  | _, [] => True
+  | st, e :: rest =>
+    (∀ pc ∈ changes cfg cv st.shard e.1 e.2, ∀ ix ∈ st.idxs, ix.kind = .flt → C02.FltOK ix.path pc.cur) ∧
+    HistFlt lower cv cfg (st.step lower cv cfg e.1 e.2).1 rest
+
+theorem histOK_of_final (lower : Bytes → Bytes) (cv : Conv) (cfg : C01.Cfg) (h : List (C01.Op × C01.Oracle)) : ∀ (st : State),
+    HistFlt lower cv cfg st h → (State.run lower cv cfg st h).1.shard.nextV ≤ idBound → HistOK lower cv cfg st h := by
+  induction h with
+  | nil => intro st _ _; trivial
+  | cons e rest ih =>
+    obtain ⟨op, o⟩ := e
+    intro st hf hb
+    exact ⟨⟨Nat.le_trans (run_next_le lower cv cfg rest _) hb, hf.1⟩, ih _ hf.2 hb⟩
+
 end Sema.Compose
